@@ -12,7 +12,7 @@ use refmodel::notes::*;
 use serde_json::{json, Value};
 
 const ALIGNS: [usize; 8] = [1, 2, 4, 8, 16, 3, 5, 12];
-const TYPES1: [u32; 3] = [1, 3, 7];
+const TYPES1: [u32; 4] = [0, 1, 3, 7];
 
 fn name_bytes(family: u64, len: usize) -> Vec<u8> {
     let pat: &[u8] = match family {
@@ -42,26 +42,105 @@ fn off_in(base: &[u8], s: &[u8]) -> (usize, usize) {
     (a, a.wrapping_add(s.len()))
 }
 
+fn to_got(n: Note<'_>, base: &[u8]) -> Got {
+    match n {
+        Note::GnuAbiTag(t) => Got { kind: 1, n_type: 1, name: None, desc: None, abi: Some([t.os, t.major, t.minor, t.subminor]), name_str: None },
+        Note::GnuBuildId(b) => Got { kind: 2, n_type: 3, name: None, desc: Some(off_in(base, b.0)), abi: None, name_str: None },
+        Note::Unknown(a) => Got {
+            kind: 3,
+            n_type: a.n_type,
+            name: Some(off_in(base, a.name)),
+            desc: Some(off_in(base, a.desc)),
+            abi: None,
+            name_str: Some(a.name_str().ok().map(|s| s.as_bytes().to_vec())),
+        },
+    }
+}
+
 fn collect<E: EndianParse>(it: NoteIterator<'_, E>, base: &[u8], cap: usize) -> Vec<Got> {
     let mut v = Vec::new();
     for n in it {
         if v.len() > cap {
             break;
         }
-        v.push(match n {
-            Note::GnuAbiTag(t) => Got { kind: 1, n_type: 1, name: None, desc: None, abi: Some([t.os, t.major, t.minor, t.subminor]), name_str: None },
-            Note::GnuBuildId(b) => Got { kind: 2, n_type: 3, name: None, desc: Some(off_in(base, b.0)), abi: None, name_str: None },
-            Note::Unknown(a) => Got {
-                kind: 3,
-                n_type: a.n_type,
-                name: Some(off_in(base, a.name)),
-                desc: Some(off_in(base, a.desc)),
-                abi: None,
-                name_str: Some(a.name_str().ok().map(|s| s.as_bytes().to_vec())),
-            },
-        });
+        v.push(to_got(n, base));
     }
     v
+}
+
+/// Iterator-adaptor histories on a fresh iterator: j x next(), then nth(k) / last() / count().
+/// Returns, per (j, k), the item nth(k) produced, plus last() and count() after j steps.
+#[allow(clippy::type_complexity)]
+fn adaptor_histories<'a, E: EndianParse>(mk: &dyn Fn() -> NoteIterator<'a, E>, base: &[u8], n: usize) -> Vec<(usize, Vec<Option<Got>>, Option<Got>, usize, Option<Got>)> {
+    let mut v = Vec::new();
+    for j in 0..=n {
+        let mut nths = Vec::new();
+        for k in 0..3usize {
+            let mut it = mk();
+            for _ in 0..j {
+                it.next();
+            }
+            let a = it.nth(k).map(|x| to_got(x, base));
+            nths.push(a);
+            if k == 1 {
+                // the item after an nth(1)
+                let b = it.next().map(|x| to_got(x, base));
+                nths.push(b);
+            }
+        }
+        let mut it = mk();
+        for _ in 0..j {
+            it.next();
+        }
+        let last = it.last().map(|x| to_got(x, base));
+        let mut it = mk();
+        for _ in 0..j {
+            it.next();
+        }
+        let count = it.take(base.len() + 2).count();
+        let mut it = mk();
+        let skipped = it.by_ref().skip(j).next().map(|x| to_got(x, base));
+        v.push((j, nths, last, count, skipped));
+    }
+    v
+}
+
+fn check_adaptors(what: &str, want: &[Got], hist: Vec<(usize, Vec<Option<Got>>, Option<Got>, usize, Option<Got>)>, out: &mut Outcome) {
+    let at = |i: usize| want.get(i).cloned();
+    let eq = |a: &Option<Got>, b: &Option<Got>| match (a, b) {
+        (None, None) => true,
+        (Some(a), Some(b)) => same(std::slice::from_ref(a), std::slice::from_ref(b)),
+        _ => false,
+    };
+    for (j, nths, last, count, skipped) in hist {
+        out.transitions += 6;
+        // nths = [nth(0), nth(1), next-after-nth(1), nth(2)]
+        let wants = [at(j), at(j + 1), if j + 1 < want.len() { at(j + 2) } else { None }, at(j + 2)];
+        for (q, (g, w)) in nths.iter().zip(wants.iter()).enumerate() {
+            // once the iterator has answered None it is not required to be fused: the step after an
+            // exhausted nth(1) is unconstrained
+            if q == 2 && j + 1 >= want.len() {
+                continue;
+            }
+            if !eq(g, w) {
+                out.violate(format!("adaptor:{what}::nth"), format!("after {j} x next(), step {q} of [nth(0), nth(1), next after nth(1), nth(2)] gives {:?}, the notes in order say {:?}", g, w));
+                return;
+            }
+        }
+        let wl = if j < want.len() { want.last().cloned() } else { None };
+        if !eq(&last, &wl) {
+            out.violate(format!("adaptor:{what}::last"), format!("after {j} x next(), last() gives {:?}, expected {:?}", last, wl));
+            return;
+        }
+        if count != want.len().saturating_sub(j) {
+            out.violate(format!("adaptor:{what}::count"), format!("after {j} x next(), count() = {count}, expected {}", want.len().saturating_sub(j)));
+            return;
+        }
+        if !eq(&skipped, &at(j)) {
+            out.violate(format!("adaptor:{what}::skip"), format!("skip({j}).next() gives {:?}, expected {:?}", skipped, at(j)));
+            return;
+        }
+    }
 }
 
 fn expect(data: &[u8], order: Order, align: usize) -> Vec<Got> {
@@ -137,7 +216,7 @@ impl Sequences {
 impl Space for Sequences {
     fn name(&self) -> String {
         format!(
-            "NoteIterator::new over sequences of {} notes: align in {{1,2,4,8,16,3,5,12}} x 4 encodings x note1 (namesz, descsz in 0..=min(2*align,{}), type in {{1,3,7}}, name family in {{GNU, XY, non-UTF-8}}) x note2 (namesz {{0,3,4,5}}, descsz {{0,1,16,align+1}}, type {{1,3}}){} x tail in {{none, 5 garbage bytes, every truncation 1..=12 of the end}}; align 0",
+            "NoteIterator::new over sequences of {} notes: align in {{1,2,4,8,16,3,5,12}} x 4 encodings x note1 (namesz, descsz in 0..=min(2*align,{}), type in {{0,1,3,7}}, name family in {{GNU, XY, non-UTF-8}}) x note2 (namesz {{0,3,4,5}}, descsz {{0,1,16,align+1}}, type {{0,1,3}}){} x tail in {{none, 5 garbage bytes, every truncation 1..=12 of the end}}; on the untruncated variants also nth(0..2) / next-after-nth / last / count / skip from every cursor position; align 0",
             if self.three { "2-3" } else { "1-2" },
             self.maxsz,
             if self.three { " x note3 (GNU build-id / ABI tag)" } else { "" }
@@ -169,7 +248,7 @@ impl Space for Sequences {
                 let mut seconds: Vec<Option<NoteSpec>> = vec![None];
                 for ns2 in [0usize, 3, 4, 5] {
                     for ds2 in [0usize, 1, 16, align + 1] {
-                        for t2 in [1u32, 3] {
+                        for t2 in [0u32, 1, 3] {
                             seconds.push(Some(NoteSpec { n_type: t2, name: name_bytes(0, ns2), desc: desc_bytes(ds2, 0x40) }));
                         }
                     }
@@ -192,10 +271,18 @@ impl Space for Sequences {
                             variants.push(body[..body.len() - cut].to_vec());
                         }
                     }
-                    for data in &variants {
+                    for (vi, data) in variants.iter().enumerate() {
                         let cap = data.len() + 2;
                         let got = subject(|| collect(NoteIterator::new(e, class, align, data), data, cap));
                         yielded += compare("NoteIterator", data, enc.order, align, got, out, &mut dig);
+                        if vi < 2 {
+                            // nth / skip / last / count from every cursor position must walk the same records
+                            let want = expect(data, enc.order, align);
+                            match subject(|| adaptor_histories(&|| NoteIterator::new(e, class, align, data), data, want.len())) {
+                                Err(m) => out.violate(format!("panic:NoteIterator adaptors in {}", panic_site(&m)), m),
+                                Ok(h) => check_adaptors("NoteIterator", &want, h, out),
+                            }
+                        }
                     }
                 }
             }
